@@ -87,3 +87,19 @@ Theorem C13_declining_combination_skipped : forall regs sp rest operands count,
   find_specific regs (sp :: rest) operands count = find_specific regs rest operands count.
 Proof. exact find_specific_skips_declining. Qed.
 Print Assumptions C13_declining_combination_skipped.
+
+(* "a register name": the test that keeps registers out of numeric expressions and label definitions ignores letter case, on
+   the side of the name as written and on the side of the declaration (D53) *)
+Theorem C13_register_name_any_case : forall n n' regs, map lower n = map lower n' -> reg_mem n regs = reg_mem n' regs.
+Proof. exact reg_mem_case. Qed.
+Print Assumptions C13_register_name_any_case.
+
+Theorem C13_register_declaration_any_case : forall n regs regs',
+  map (map lower) regs = map (map lower) regs' -> reg_mem n regs = reg_mem n regs'.
+Proof. exact reg_mem_declared_case. Qed.
+Print Assumptions C13_register_declaration_any_case.
+
+Theorem C13_expression_naming_a_register : forall regs e x,
+  In x (expr_labels e) -> reg_mem x regs = true -> mentions_register regs e = true.
+Proof. exact mentions_register_in. Qed.
+Print Assumptions C13_expression_naming_a_register.
